@@ -238,6 +238,7 @@ def run(repo='/repo', tier='quick'):
     c16k(db, res)
     c16l(db, res)
     c16m(db, res)
+    c16n(db, res)
     c16i(db, res)
     res.assumptions.append('"no request byte skipped or parsed twice" is decided only as: the suspension/probe paths do not move the cursor; values are not tracked')
     if tier == 'thorough':
@@ -387,6 +388,31 @@ def c16m(db, res):
                   'htp_connp_REQ_CONNECT_CHECK makes the suspension depend on %s as well: a CONNECT that does not meet the extra condition is not suspended, and after a 2xx answer its tunnel bytes are parsed as requests' % other, st['loc'])
     # and the non-suspending exit is the complement: no CONNECT falls through to the body decision
     res.floor('C16.m', 'suspending returns of the CONNECT check', n, 1)
+
+
+def c16n(db, res):
+    """Everything the CONNECT handling does hangs on request_method_number. It is the number of the method token that was parsed,
+    whatever else the request line looks like (a CONNECT without a protocol token is still a CONNECT): on every successful path
+    of the request-line parser the number is taken from the table for the stored token."""
+    res.rule('C16.n', 'the method number is the number of the method token: in the request-line parser every path from the store of request_method to a successful return passes request_method_number = htp_convert_method_to_number(request_method), unconditionally')
+    n = 0
+    for name, f in sorted(db.fn.items()):
+        if not f.blocks or not name.startswith('htp_parse_request_line'):
+            continue
+        for b, i, w in P.field_writes(f, 'request_method'):
+            if w.get('k') != 'assign':
+                continue
+            n += 1
+            bad = None
+            for atoms, events, end, seq in P.enum_paths_seq(f, (b, i), max_paths=50000):
+                if end[0] != 'return' or lit_name(P.ret_value(end[3])) != 'HTP_OK':
+                    continue
+                ok = any(x[0] == 'stmt' and any(strip(y['r']).get('k') == 'call' and strip(y['r']).get('callee') == 'htp_convert_method_to_number' for y in P.assigns_field(x[3], 'request_method_number') if y.get('k') == 'assign') for x in seq)
+                if not ok:
+                    bad = end[3]
+            res.check(bad is None, 'C16.n', '%s:method-number-from-the-table' % name, 'every successful path looks the stored token up',
+                      '%s returns successfully on a path where request_method_number was not taken from htp_convert_method_to_number() for the stored method: a CONNECT that takes this path (one without a protocol token, say) keeps the number of an unknown method - the request side does not wait, no tunnel is set up, the payload is parsed as requests' % name, (bad or w).get('loc', f.loc))
+    res.floor('C16.n', 'stores of the method token in the request-line parsers', n, 1)
 
 
 def c16h(db, res):
